@@ -488,6 +488,14 @@ func (u *Unit) evalBinary(st *State, e *ast.BinaryExpr) Value {
 		}
 		return v
 	}
+	if x.K == KIface && y.K == KIface && x.Inner != nil && y.Inner != nil && x.Inner.Term != nil && y.Inner.Term != nil && x.Inner.Term.Sort == y.Inner.Term.Sort {
+		switch e.Op {
+		case token.EQL:
+			return Value{K: KBool, Term: Eq(x.Inner.Term, y.Inner.Term)}
+		case token.NEQ:
+			return Value{K: KBool, Term: Ne(x.Inner.Term, y.Inner.Term)}
+		}
+	}
 	if x.K == KBuf && y.K == KBuf {
 		switch e.Op {
 		case token.EQL:
